@@ -382,6 +382,10 @@ func jaccard(a, b []string) float64 {
 	return float64(inter) / float64(union)
 }
 
+// gFuncAsMethod: reference free functions ("<pkg>.<name>") that are methods of their first parameter's type
+// in the current tree (the receiver is the first parameter in SSA, so rules see the same parameters).
+var gFuncAsMethod = map[string]bool{}
+
 type renameSet struct {
 	objs  map[types.Object]string // object of the current tree -> reference name
 	notes []string
@@ -639,15 +643,36 @@ func detectRenames(ref map[string]*refPkg, cs *curSyms) *renameSet {
 			return out
 		}
 		var pairs []pair
+		toMethod := map[string]bool{}
 		for _, m := range missing {
 			mrecv, mptr, _ := splitFuncKey(m)
 			for _, a := range added {
 				arecv, aptr, _ := splitFuncKey(canonKey(a))
-				if arecv != mrecv || aptr != mptr {
-					continue
-				}
-				if mapTypeNames(cp.Funcs[a].Sig, typeRen) != rp.Funcs[m].Sig {
-					continue
+				asig := mapTypeNames(cp.Funcs[a].Sig, typeRen)
+				if mrecv == "" && arecv != "" {
+					// a free function turned into a method of its first parameter's type
+					star := ""
+					if aptr {
+						star = "*"
+					}
+					first := star + p + "." + arecv
+					rest := strings.TrimPrefix(asig, "(")
+					if strings.HasPrefix(rest, ")") {
+						asig = "(" + first + rest
+					} else {
+						asig = "(" + first + "," + rest
+					}
+					if asig != rp.Funcs[m].Sig {
+						continue
+					}
+					toMethod[a] = true
+				} else {
+					if arecv != mrecv || aptr != mptr {
+						continue
+					}
+					if asig != rp.Funcs[m].Sig {
+						continue
+					}
 				}
 				sc := jaccard(rp.Funcs[m].Feat, cp.Funcs[a].Feat)
 				// renamed and split into phases at once: compare with the body the function has together
@@ -683,6 +708,9 @@ func detectRenames(ref map[string]*refPkg, cs *curSyms) *renameSet {
 				}
 				funcRen[p][pr.a] = pr.m
 				rs.notes = append(rs.notes, fmt.Sprintf("func %s.%s is the reference's %s (body %.2f)", shortPkg(p), pr.a, pr.m, pr.score))
+				if toMethod[pr.a] {
+					gFuncAsMethod[p+"."+refName] = true
+				}
 			}
 		}
 		// ---- parameters and named results, by position
